@@ -97,6 +97,45 @@ def is_current_fiber(fn, key):
     return mentions_field(b, "fiber_manager", "current_fiber") or mentions_field(b, "fiber_manager", "maintenance_fiber")
 
 
+def check_infra(ctx, P):
+    """low-level infrastructure every rule leans on: the per-thread manager really is per thread, and the functions the order rules accept as
+    compiler / full fences really are fences"""
+    from rules import COMPILER_FENCE_CALLS, FULL_FENCE_CALLS
+    g = P.fn("fiber_manager_get")
+    o = ctx.ob("infra.tls", g, "fiber_manager_get() returns a thread-local variable (one manager per kernel thread)",
+               "a manager pointer shared by all kernel threads makes every thread push onto one deque and consume one set of deferred-publication slots")
+    bad = None
+    rets = [r for r in g.returns() if r.kids]
+    if not rets:
+        raise AnalysisBroken("fiber_manager_get: no return value")
+    for r in rets:
+        v = g.resolve(r.kids[0])
+        if not (v is not None and v.k == "DeclRefExpr" and v.dk == "global"):
+            bad = bad or ("returns `%s`, not a thread-local variable" % r.kids[0].text, r)
+        elif not v.tls:
+            bad = bad or ("`%s` is not declared __thread / _Thread_local" % v.name, r)
+    o.check(bad is None, "thread-local", bad[0] if bad else None, site=bad[1] if bad else None, construct="manager pointer not thread-local")
+    o = ctx.ob("infra.fences", "", "write_barrier / load_load_barrier / cpu_relax are compiler barriers (volatile asm with a memory clobber); store_load_barrier is a "
+               "full fence (locked RMW or mfence, memory clobber)",
+               "the order rules accept a call of these functions as a fence: an empty or clobber-less definition lets the compiler move the accesses they separate")
+    bad = None
+    n = 0
+    for name in sorted(COMPILER_FENCE_CALLS | FULL_FENCE_CALLS):
+        if not P.has_fn(name):
+            continue
+        f = P.fn(name)
+        n += 1
+        asms = f.all(k="GCCAsmStmt")
+        okc = [a for a in asms if a.d.get("asmvolatile") and "memory" in (a.d.get("clobbers") or [])]
+        if not okc:
+            bad = bad or ("%s has no volatile asm with a memory clobber" % name, f.loc)
+        elif name in FULL_FENCE_CALLS and not any(("lock" in a.d["asm"] or "mfence" in a.d["asm"]) for a in okc):
+            bad = bad or ("%s is not a locked instruction / mfence" % name, f.loc)
+    if n < 3:
+        raise AnalysisBroken("fence functions: only %d found" % n)
+    o.check(bad is None, "%d fence functions" % n, bad[0] if bad else None, site=bad[1] if bad else None, construct="fence function is not a fence")
+
+
 def rtw(P):
     """the value of FIBER_SIGNAL_READY_TO_WAKE (the marker a sleeper's successor stores into its scratch): read from the macro, not assumed"""
     from rules import macro_constant
@@ -842,6 +881,7 @@ def check_done(ctx, P):
 
 def run(ctx):
     P = ctx.prog()
+    check_infra(ctx, P)
     check_swap(ctx, P)
     check_slots(ctx, P)
     check_wait_sites(ctx, P)
@@ -852,7 +892,7 @@ def run(ctx):
     check_done(ctx, P)
 
 
-CORE_PREFIXES = ("swap.", "slots.", "states", "skip", "wake.ready", "wake.census", "wait.census", "done.")
+CORE_PREFIXES = ("infra.", "swap.", "slots.", "states", "skip", "wake.ready", "wake.census", "wait.census", "done.")
 
 
 def core_dependency(ctx, P, rule, fns, what, why, prefixes=()):
